@@ -10,6 +10,8 @@ pub enum Mode {
     Layouts,
     EnumPanic,
     EnumScript,
+    DiffStd,
+    AbortEnum,
 }
 
 pub struct Profile {
@@ -25,6 +27,7 @@ pub const PROFILES: &[Profile] = &[
     Profile { name: "C04", mode: Mode::Plain, want_snaps: false },
     Profile { name: "C05", mode: Mode::Plain, want_snaps: false },
     Profile { name: "C06", mode: Mode::Plain, want_snaps: false },
+    Profile { name: "C07", mode: Mode::DiffStd, want_snaps: false },
     Profile { name: "C08", mode: Mode::Plain, want_snaps: false },
     Profile { name: "C09", mode: Mode::Layouts, want_snaps: false },
     Profile { name: "C10", mode: Mode::EnumScript, want_snaps: false },
@@ -32,6 +35,7 @@ pub const PROFILES: &[Profile] = &[
     Profile { name: "C12", mode: Mode::Plain, want_snaps: false },
     Profile { name: "C13", mode: Mode::Plain, want_snaps: true },
     Profile { name: "C14", mode: Mode::Plain, want_snaps: false },
+    Profile { name: "C16", mode: Mode::AbortEnum, want_snaps: false },
 ];
 
 pub fn profile(name: &str) -> Option<&'static Profile> {
@@ -210,6 +214,20 @@ pub fn knobs(profile: &str, thorough: bool, rng: &mut Rng) -> Knobs {
             kn.walk_len = rng.below(10);
             kn.drain = true;
         }
+        "C16" => {
+            if rng.chance(1, 4) {
+                recording_discipline(rng, &mut kn);
+            }
+            with_weak(rng, &mut kn, false);
+            kn.max_objs = 2 + rng.below(if thorough { 5 } else { 4 });
+            kn.shape_objs = 1 + rng.below(kn.max_objs.min(5));
+            if kn.shape == 0 {
+                kn.shape = 1 + rng.below(9) as u32;
+            }
+            kn.max_mult = 1 + rng.below(3);
+            kn.walk_len = rng.below(8);
+            kn.drain = true;
+        }
         "C11" => {
             recording_discipline(rng, &mut kn);
             if rng.chance(3, 4) {
@@ -280,6 +298,7 @@ pub fn nontrivial(profile: &str, d: &[u64; NSTATS]) -> bool {
         "C12" => g(St::f_consuming_on_adopted) > 0,
         "C13" => g(St::f_elided_unadopt) > 0,
         "C14" => g(St::p_c14_checked_calls) > 0 && g(St::op_store_adopt) > 0,
+        "C16" => g(St::f_dead_handle_clone_in_dtor) + g(St::f_dead_handle_drop_in_dtor) > 0,
         _ => false,
     }
 }
